@@ -13,6 +13,14 @@ every binary and unary operator, and calls with positional arguments followed by
 `abs(x)`, `math.floor(x)`).  Complex literal tokens and tuple keys are outside the theorem and covered by
 the correspondence run and the eval oracle only.
 
+**Which tree / what has no formal content.**  The model transcribes `/repo` as it stands now (pinned commit plus the `fix:`
+commits: the repaired `__repr__`, and `copy_expr_from` rebinding the namespace instead of replacing text).  There is no
+translation between `Parse.Expr` (the printed language: calls, builtins, floats) and the manager model's expressions
+(lit / ref / bin / un over ints): "dump text → parse → load" is not composed in Lean, the two halves meet in the
+correspondence run only.  `load` never errors in the model because its pairs are already structure; the real `load` raises
+on text that does not evaluate — a model artefact, not a claim.  The bisimulation of a loaded dump with the original over
+whole histories is `C03_fresh_manager_bisimilar` (in C03.lean).
+
 `C11_load_dump_reacts_identically` is the second sentence of the property on the manager model (pairs already
 parsed — the textual half is the round trip above): the dump of a manager, loaded into a fresh manager over the same
 containers, gives the same definitions, and every later assignment to a plain location (C01's scope) ends with the
@@ -184,7 +192,7 @@ theorem C11_copy_without_overwrite_keeps_old :
               Manager.lookDef (Manager.copyExprFrom dst src name b false).fst.defs q = some t :=
   @Manager.copy_false_old
 
-/-- C01's per-definition predicate transfers along the copy: where the rebound containers hold the same contents, the copied definition holds in the destination iff the original holds in the source -/
+/-- C01's per-definition predicate transfers along re-rooting, ONE direction: if a definition holds in the source, its re-rooted form holds in the destination store seen through the bindings.  This is `eval_rebind` on the store that `copy_expr_from` leaves unchanged; it does not use which definitions the copy registered (that is `C11_copy_definitions_are_the_rerooted_ones`) and says nothing about later assignments.  `SeenThrough` asks the two root dictionaries to agree on ALL labels; the per-expression forms `Manager.copy_eval_agree` / `eval_rebind_on` need agreement on the labels that occur only. -/
 theorem C11_copied_definition_holds :
     ∀ (dst src : Manager.MState) (name : String) (b : String → Option Manager.Path) (ow : Bool),
       Manager.MInv dst →
